@@ -471,10 +471,13 @@ impl S {
     fn stages(&self) -> Vec<(u64, u64, u64, u64)> {
         let app = self.app.as_ref().unwrap();
         let st = app.contract_storage(&self.wl.clone().unwrap());
-        match tiered_whitelist_merkletree::state::CONFIG.load(&*st) {
-            Ok(cfg) => cfg.stages.iter().map(|s| (s.start_time.nanos(), s.end_time.nanos(), s.per_address_limit as u64, denom_id(&s.mint_price.denom))).collect(),
-            Err(_) => vec![],
-        }
+        // read as untyped JSON: no dependence on the struct's field layout beyond the four field names used here
+        let raw: serde_json::Value = st.get(tiered_whitelist_merkletree::state::CONFIG.as_slice()).and_then(|b| serde_json::from_slice(&b).ok()).unwrap_or(serde_json::Value::Null);
+        let ts = |v: &serde_json::Value| v.as_str().and_then(|x| x.parse::<u64>().ok()).unwrap_or(0);
+        raw["stages"]
+            .as_array()
+            .map(|a| a.iter().map(|s| (ts(&s["start_time"]), ts(&s["end_time"]), s["per_address_limit"].as_u64().unwrap_or(0), denom_id(s["mint_price"]["denom"].as_str().unwrap_or("")))).collect())
+            .unwrap_or_default()
     }
     /// (start, end, pal) of the plain whitelist, through its `Config` query
     fn plain_cfg(&self) -> (u64, u64, u64, bool) {
